@@ -101,6 +101,6 @@ def one(sd):
 
 
 with ThreadPoolExecutor(par) as ex:
-    for lines in ex.map(one, sorted(os.listdir(root))):
+    for lines in ex.map(one, [d for d in sorted(os.listdir(root)) if re.search(os.environ.get('RECHECK_ONLY', ''), d)]):
         for l in lines:
             print(l, flush=True)
